@@ -35,6 +35,8 @@
 #include <stdarg.h>
 #include <search.h>
 #include <sanitizer/lsan_interface.h>
+#include <dlfcn.h>
+#include <dirent.h>
 #include "common/lp.h"
 
 /* ---------------------------------------------------------------- clock */
@@ -48,21 +50,25 @@ uint64_t MHD_monotonic_msec_counter (void) { return vclock_ms; }
 static struct {
   char mode[16]; size_t mem; unsigned limit, perip, timeout;
   int upgrade, suspend, nts; unsigned pool;
+  int listen;       /* 1: real listen socket on 127.0.0.1, arrivals are accepted with accept4(); 2: dual stack */
 } hcfg;
+static uint16_t listen_port;
 
 static struct MHD_Daemon *hd;
 
 #define MAXC 32
 #define MAXRESP 16
 #define SETTLE_ROUNDS 12
+#define MAXPRE 4
 
 struct hconn {
-  int used, cfd, addr;
+  int used, cfd, addr, cport, verdict;
   int sfd, sfd_open, sfd_closed_n;   /* server side of the socketpair */
   int started, closed_n;
   int nodrain, eof_seen, epoll_added;
   int nreq_sent, nreq_seen;
-  char beh[8][12]; int behrid[8];    /* behaviour per request: reply|suspend|upgrade */
+  char beh[8][12]; int behrid[8];    /* behaviour per request: reply|replyc|suspend|upgrade|bad */
+  int npre[8], pre[8][MAXPRE], pre_done; /* interim "102 Processing" replies before the final one */
   struct MHD_Connection *mc;
   struct MHD_UpgradeResponseHandle *urh; int upgraded;
 };
@@ -93,6 +99,7 @@ static int classify (size_t n)
   if (in_add && n == sizeof (struct MHD_IPCount)) return S_IPNODE;
   if (in_add && n == sizeof (struct sockaddr_in)) return S_ADDR;
   if (in_add && n == sizeof (struct sockaddr_un)) return S_ADDR;
+  if (in_add && n == sizeof (struct sockaddr_in6)) return S_ADDR;
   if (hd && n == ((hd->pool_size + 15) & ~((size_t) 15))) return S_POOL;
   if ((in_add || in_loop) && n == sizeof (struct MemoryPool)) return S_POOLHDR;
   if (n == sizeof (struct MHD_UpgradeResponseHandle)) return S_URH;
@@ -158,6 +165,50 @@ int epoll_ctl (int epfd, int op, int fd, struct epoll_event *ev)
   if (EPOLL_CTL_ADD == op)
   { int c; for (c = 0; c < MAXC; c++) if (hc[c].used && hc[c].sfd_open && hc[c].sfd == fd) hc[c].epoll_added = 1; }
   return (int) syscall (SYS_epoll_ctl, epfd, op, fd, ev);
+}
+
+/* ------------------------------------------------- accept4 on the real listen socket */
+static int acc_fail_n, acc_errno; static const char *acc_name = "";
+int accept4 (int fd, struct sockaddr *addr, socklen_t *alen, int flags)
+{
+  int r, c; unsigned port = 0;
+  if (acc_fail_n > 0) { acc_fail_n--; out ("accept-failed %s", acc_name); errno = acc_errno; return -1; }
+  r = (int) syscall (SYS_accept4, fd, addr, alen, flags);
+  if (r < 0 || NULL == addr) return r;
+  if (AF_INET == addr->sa_family) port = ntohs (((struct sockaddr_in *) addr)->sin_port);
+  else if (AF_INET6 == addr->sa_family) port = ntohs (((struct sockaddr_in6 *) addr)->sin6_port);
+  pthread_mutex_lock (&fd_mx);
+  for (c = 0; c < MAXC; c++)
+    if (hc[c].used && hc[c].cport == (int) port && ! hc[c].sfd_open && 0 == hc[c].sfd_closed_n)
+    { hc[c].sfd = r; hc[c].sfd_open = 1; break; }
+  pthread_mutex_unlock (&fd_mx);
+  return r;
+}
+
+/* ------------------------------------------------- thread creation failure */
+static long thr_fail_k; static int thr_failed;
+int pthread_create (pthread_t *t, const pthread_attr_t *a, void *(*fn)(void *), void *arg)
+{
+  static int (*real) (pthread_t *, const pthread_attr_t *, void *(*)(void *), void *);
+  if (NULL == real) *(void **) &real = dlsym (RTLD_NEXT, "pthread_create");
+  if (thr_fail_k > 0 && 0 == __atomic_sub_fetch (&thr_fail_k, 1, __ATOMIC_SEQ_CST))
+  { __atomic_add_fetch (&thr_failed, 1, __ATOMIC_SEQ_CST); out ("thread-create-failed"); return EAGAIN; }
+  return real (t, a, fn, arg);
+}
+static int count_threads_ (void)
+{
+  DIR *d = opendir ("/proc/self/task"); struct dirent *e; int n = 0;
+  if (NULL == d) return -1;
+  while (NULL != (e = readdir (d))) if (e->d_name[0] != '.') n++;
+  closedir (d);
+  return n;
+}
+/* a joined thread may still be listed for a moment (the kernel clears the tid, wakes the joiner, then reaps the task) */
+static int count_threads (void)
+{
+  int i, n = count_threads_ ();
+  for (i = 0; i < 200 && 1 != n; i++) { usleep (2000); n = count_threads_ (); }
+  return n;
 }
 
 /* ---------------------------------------------------------------- responses */
@@ -230,11 +281,20 @@ static int conn_of_fd (int fd)
 static enum MHD_Result policy_cb (void *cls, const struct sockaddr *addr, socklen_t addrlen)
 {
   int *cur = (int *) cls;   /* cur[0] = connection index, cur[1] = verdict */
+  int c = cur[0], v = cur[1];
   APP_ENTER;
-  (void) addr; (void) addrlen;
-  out ("policy c=%d -> %d", cur[0], cur[1]);
+  (void) addrlen;
+  if (hcfg.listen && NULL != addr)
+  { /* accepted from the listen socket: the peer's port identifies the scripted client */
+    unsigned port = AF_INET == addr->sa_family ? ntohs (((const struct sockaddr_in *) addr)->sin_port)
+                    : AF_INET6 == addr->sa_family ? ntohs (((const struct sockaddr_in6 *) addr)->sin6_port) : 0;
+    for (c = 0; c < MAXC; c++) if (hc[c].used && hc[c].cport == (int) port) break;
+    v = c < MAXC ? hc[c].verdict : 1;
+    if (c >= MAXC) c = -1;
+  }
+  out ("policy c=%d -> %d", c, v);
   APP_LEAVE;
-  return cur[1] ? MHD_YES : MHD_NO;
+  return v ? MHD_YES : MHD_NO;
 }
 static int cur_arrival[2];
 
@@ -277,6 +337,7 @@ static enum MHD_Result handler (void *cls, struct MHD_Connection *mc, const char
   {
     *req_cls = (void *) (intptr_t) (c + 1);
     r = hc[c].nreq_seen++;
+    hc[c].pre_done = 0;
     b = (r < 8) ? hc[c].beh[r] : "";
     if (! strcmp (b, "suspend"))
     {
@@ -289,6 +350,16 @@ static enum MHD_Result handler (void *cls, struct MHD_Connection *mc, const char
   r = hc[c].nreq_seen - 1;
   b = (r >= 0 && r < 8) ? hc[c].beh[r] : "";
   rid = (r >= 0 && r < 8) ? hc[c].behrid[r] : -1;
+  if (r >= 0 && r < 8 && hc[c].pre_done < hc[c].npre[r])
+  { /* an interim reply: the handler is called again once it is on the wire */
+    rid = hc[c].pre[r][hc[c].pre_done++];
+    if (rid < 0 || rid >= MAXRESP || NULL == hr[rid].obj)
+    { out ("queued c=%d rid=%d -> 0", c, rid); APP_LEAVE; return MHD_NO; }
+    LIB (q = MHD_queue_response (mc, MHD_HTTP_PROCESSING, hr[rid].obj));
+    out ("queued c=%d rid=%d -> %d", c, rid, (int) q);
+    APP_LEAVE;
+    return q;
+  }
   if (rid < 0 || rid >= MAXRESP || NULL == hr[rid].obj)
   { out ("queued c=%d rid=%d -> 0", c, rid); APP_LEAVE; return MHD_NO; }
   LIB (q = MHD_queue_response (mc, ! strcmp (hr[rid].kind, "upgrade") ? 101 : 200, hr[rid].obj));
@@ -315,16 +386,19 @@ static void drain_clients (void)
   }
 }
 
-struct ipacc { char txt[512]; size_t n; };
+struct ipacc { char txt[1024]; size_t n; unsigned key[64], val[64], cnt; };
 static struct ipacc ipa;
 static void ip_walk (const void *nodep, VISIT which, int depth)
 {
   const struct MHD_IPCount *k = *(const struct MHD_IPCount *const *) nodep;
   (void) depth;
   if (postorder != which && leaf != which) return;
-  if (AF_INET == k->family && ipa.n + 32 < sizeof (ipa.txt))
-    ipa.n += (size_t) snprintf (ipa.txt + ipa.n, sizeof (ipa.txt) - ipa.n, " %u=%u",
-                                (unsigned) (ntohl (k->addr.ipv4.s_addr) & 0xffu), k->count);
+  if (ipa.cnt < 64 && (AF_INET == k->family || AF_INET6 == k->family))
+  {
+    ipa.key[ipa.cnt] = AF_INET == k->family ? (unsigned) (ntohl (k->addr.ipv4.s_addr) & 0xffu)
+                                            : 100u + ((const uint8_t *) &k->addr.ipv6)[15];
+    ipa.val[ipa.cnt++] = k->count;
+  }
 }
 static unsigned dll_len (struct MHD_Connection *head)
 { unsigned n = 0; for (; head; head = head->next) n++; return n; }
@@ -340,8 +414,17 @@ static void report (void)
   if (threaded ()) return;
   out ("lists new=%u act=%u susp=%u clean=%u", dll_len (hd->new_connections_head), dll_len (hd->connections_head),
        dll_len (hd->suspended_connections_head), dll_len (hd->cleanup_head));
-  ipa.n = 0; ipa.txt[0] = 0;
+  ipa.n = 0; ipa.txt[0] = 0; ipa.cnt = 0;
   twalk (hd->per_ip_connection_count, &ip_walk);
+  { /* the tree as a map: sorted by script address, whatever the tree order is */
+    unsigned i, j;
+    for (i = 0; i < ipa.cnt; i++)
+      for (j = i + 1; j < ipa.cnt; j++)
+        if (ipa.key[j] < ipa.key[i])
+        { unsigned t = ipa.key[i]; ipa.key[i] = ipa.key[j]; ipa.key[j] = t; t = ipa.val[i]; ipa.val[i] = ipa.val[j]; ipa.val[j] = t; }
+    for (i = 0; i < ipa.cnt; i++)
+      ipa.n += (size_t) snprintf (ipa.txt + ipa.n, sizeof (ipa.txt) - ipa.n, " %u=%u", ipa.key[i], ipa.val[i]);
+  }
   out ("ipc%s", ipa.n ? ipa.txt : " -");
 }
 
@@ -370,7 +453,7 @@ static int kv (const char *w, const char *key, const char **val)
 
 static void start_daemon (void)
 {
-  unsigned flags = MHD_USE_NO_LISTEN_SOCKET;
+  unsigned flags = hcfg.listen ? (2 == hcfg.listen ? MHD_USE_DUAL_STACK : 0) : MHD_USE_NO_LISTEN_SOCKET;
   struct MHD_OptionItem ops[16]; int n = 0;
   if (hcfg.suspend) flags |= MHD_ALLOW_SUSPEND_RESUME;
   if (hcfg.upgrade) flags |= MHD_ALLOW_UPGRADE;
@@ -389,6 +472,13 @@ static void start_daemon (void)
   ops[n].option = MHD_OPTION_NOTIFY_CONNECTION; ops[n].value = (intptr_t) &notify_conn; ops[n++].ptr_value = NULL;
   ops[n].option = MHD_OPTION_END; ops[n].value = 0; ops[n++].ptr_value = NULL;
   LIB (hd = MHD_start_daemon (flags, 0, &policy_cb, cur_arrival, &handler, NULL, MHD_OPTION_ARRAY, ops, MHD_OPTION_END));
+  listen_port = 0;
+  if (hd && hcfg.listen)
+  {
+    const union MHD_DaemonInfo *di;
+    LIB (di = MHD_get_daemon_info (hd, MHD_DAEMON_INFO_BIND_PORT));
+    listen_port = di ? di->port : 0;
+  }
   out (hd ? "started" : "start-failed");
 }
 
@@ -402,6 +492,7 @@ static void stop_daemon (void)
   for (c = 0; c < MAXC; c++) { hc[c].urh = NULL; hc[c].upgraded = 0; }
   report_fired ();
   out ("stopped");
+  out ("threads %d", count_threads ());
 }
 
 static void reset_all (void)
@@ -416,10 +507,12 @@ static void reset_all (void)
   memset (hr, 0, sizeof (hr));
   memset (&hcfg, 0, sizeof (hcfg)); strcpy (hcfg.mode, "select");
   fail_k = 0; fail_site = 0; fired_site = 0; epoll_fail_next = 0;
+  thr_fail_k = 0; thr_failed = 0; acc_fail_n = 0;
   vclock_ms = 1000000;
 }
 
 static const char REQ_PLAIN[] = "GET / HTTP/1.1\r\nHost: h\r\n\r\n";
+static const char REQ_BAD[] = "GET / HTTP/1.1\r\n\r\n";   /* no Host: the daemon answers 400 with a response of its own */
 static const char REQ_UPG[] = "GET / HTTP/1.1\r\nHost: h\r\nConnection: Upgrade\r\nUpgrade: x-test\r\n\r\n";
 
 int main (void)
@@ -457,9 +550,13 @@ int main (void)
         else if (kv (l.w[i], "suspend", &v)) hcfg.suspend = atoi (v);
         else if (kv (l.w[i], "nts", &v)) hcfg.nts = atoi (v);
         else if (kv (l.w[i], "pool", &v)) hcfg.pool = (unsigned) atoi (v);
+        else if (kv (l.w[i], "listen", &v)) hcfg.listen = atoi (v);
       }
       out ("ok");
     }
+    else if (! strcmp (op, "thread-fail") && l.n >= 2 && lp_u64 (l.w[1], &a))
+    { thr_fail_k = (long) a; out ("ok"); }
+    else if (! strcmp (op, "threads")) out ("threads %d", count_threads ());
     else if (! strcmp (op, "start") && NULL == hd) start_daemon ();
     else if (! strcmp (op, "resp-create") && l.n >= 2 && lp_u64 (l.w[1], &a) && a < MAXRESP && ! hr[a].used)
     {
@@ -482,15 +579,64 @@ int main (void)
       out ("resp-drop rid=%d", (int) a);
     }
     else if (NULL == hd) out ("bad-op");
+    else if (! strcmp (op, "arrive") && hcfg.listen && l.n >= 4 && lp_u64 (l.w[1], &a) && lp_u64 (l.w[2], &b) && lp_u64 (l.w[3], &p)
+             && a < MAXC && ! hc[a].used && ((1 == hcfg.listen && b >= 1 && b < 100) || (2 == hcfg.listen && b > 100 && b < 200)))
+    { /* a real TCP client from 127.0.0.<b> connects; the daemon accepts it (accept4) and runs the admission code */
+      struct sockaddr_in me, srv; socklen_t sl = sizeof (me); enum MHD_Result q = MHD_NO;
+      int fd = socket (AF_INET, SOCK_STREAM, 0);
+      memset (&me, 0, sizeof (me)); me.sin_family = AF_INET; me.sin_addr.s_addr = htonl (0x7f000000u + (uint32_t) (b % 100));
+      memset (&srv, 0, sizeof (srv)); srv.sin_family = AF_INET; srv.sin_port = htons (listen_port); srv.sin_addr.s_addr = htonl (0x7f000001u);
+      if (fd < 0 || 0 != bind (fd, (struct sockaddr *) &me, sizeof (me)) || 0 != connect (fd, (struct sockaddr *) &srv, sizeof (srv))
+          || 0 != getsockname (fd, (struct sockaddr *) &me, &sl))
+      { if (fd >= 0) syscall (SYS_close, fd); out ("bad-op"); }
+      else
+      {
+        fcntl (fd, F_SETFL, fcntl (fd, F_GETFL) | O_NONBLOCK);
+        hc[a].used = 1; hc[a].cfd = fd; hc[a].sfd = -1; hc[a].sfd_open = 0; hc[a].addr = (int) b; hc[a].nodrain = 0;
+        hc[a].cport = ntohs (me.sin_port); hc[a].verdict = (int) (p != 0);
+        in_add = 1;
+        LIB (q = MHD_accept_connection (hd));
+        in_add = 0;
+        report_fired ();
+        /* MHD_accept_connection reports only whether accept() worked: the admission result is whether the socket survived */
+        out ("arrive c=%d -> %d", (int) a, (int) (MHD_YES == q && hc[a].sfd_open));
+        report ();
+      }
+    }
+    else if (! strcmp (op, "accept-fail") && hcfg.listen && l.n >= 2)
+    { /* accept4() fails: nothing may be counted, nothing may be lost */
+      static const struct { const char *n; int e; } tab[] = { {"EMFILE", EMFILE}, {"ENFILE", ENFILE}, {"ECONNABORTED", ECONNABORTED},
+                                                             {"EAGAIN", EAGAIN}, {"ENOMEM", ENOMEM}, {"ENOBUFS", ENOBUFS} };
+      enum MHD_Result q = MHD_YES; unsigned k, hit = 0;
+      for (k = 0; k < sizeof (tab) / sizeof (tab[0]); k++)
+        if (! strcmp (tab[k].n, l.w[1])) { acc_errno = tab[k].e; acc_name = tab[k].n; hit = 1; }
+      if (! hit) out ("bad-op");
+      else
+      {
+        acc_fail_n = 1;
+        LIB (q = MHD_accept_connection (hd));
+        acc_fail_n = 0;
+        if (MHD_NO != q) out ("fault accept-failure-reported-as-success");
+        report ();
+      }
+    }
     else if (! strcmp (op, "arrive") && l.n >= 4 && lp_u64 (l.w[1], &a) && lp_u64 (l.w[2], &b) && lp_u64 (l.w[3], &p)
              && a < MAXC && ! hc[a].used && b < 250)
     {
-      int sv[2]; union { struct sockaddr sa; struct sockaddr_in in; struct sockaddr_un un; } u; socklen_t alen; enum MHD_Result q;
+      int sv[2]; union { struct sockaddr sa; struct sockaddr_in in; struct sockaddr_in6 in6; struct sockaddr_un un; } u; socklen_t alen; enum MHD_Result q;
       if (0 != socketpair (AF_UNIX, SOCK_STREAM | SOCK_NONBLOCK, 0, sv)) { out ("bad-op"); }
       else
       {
         memset (&u, 0, sizeof (u));
-        if (0 != b)
+        if (b >= 100 && b < 200)
+        { /* IPv4-mapped IPv6 address ::ffff:10.0.0.(b-100): a key of its own in the per-address tree */
+          static const uint8_t pfx[12] = {0, 0, 0, 0, 0, 0, 0, 0, 0, 0, 0xff, 0xff};
+          u.in6.sin6_family = AF_INET6; u.in6.sin6_port = htons ((uint16_t) (1000 + a));
+          memcpy (u.in6.sin6_addr.s6_addr, pfx, 12);
+          u.in6.sin6_addr.s6_addr[12] = 10; u.in6.sin6_addr.s6_addr[15] = (uint8_t) (b - 100);
+          alen = sizeof (u.in6);
+        }
+        else if (0 != b)
         { u.in.sin_family = AF_INET; u.in.sin_port = htons ((uint16_t) (1000 + a)); u.in.sin_addr.s_addr = htonl (0x0a000000u + (uint32_t) b); alen = sizeof (u.in); }
         else
         { u.un.sun_family = AF_UNIX; strcpy (u.un.sun_path, "/nonexistent"); alen = sizeof (u.un); }
@@ -506,11 +652,15 @@ int main (void)
     }
     else if (! strcmp (op, "req") && l.n >= 4 && lp_u64 (l.w[1], &a) && lp_u64 (l.w[3], &b) && a < MAXC && hc[a].used
              && hc[a].cfd >= 0 && hc[a].nreq_sent < 8 && b < MAXRESP
-             && (! strcmp (l.w[2], "reply") || ! strcmp (l.w[2], "replyc") || ! strcmp (l.w[2], "suspend") || ! strcmp (l.w[2], "upgrade")))
+             && l.n <= 4 + MAXPRE
+             && (! strcmp (l.w[2], "reply") || ! strcmp (l.w[2], "replyc") || ! strcmp (l.w[2], "suspend") || ! strcmp (l.w[2], "upgrade")
+                 || (! strcmp (l.w[2], "bad") && 4 == l.n)))
     {
-      const char *rq = ! strcmp (l.w[2], "upgrade") ? REQ_UPG : REQ_PLAIN; size_t n = strlen (rq), offn = 0;
+      const char *rq = ! strcmp (l.w[2], "upgrade") ? REQ_UPG : ! strcmp (l.w[2], "bad") ? REQ_BAD : REQ_PLAIN; size_t n = strlen (rq), offn = 0;
       int k = hc[a].nreq_sent++;
       strcpy (hc[a].beh[k], l.w[2]); hc[a].behrid[k] = (int) b;
+      hc[a].npre[k] = 0;
+      for (i = 4; i < l.n; i++) { uint64_t x; hc[a].pre[k][hc[a].npre[k]++] = lp_u64 (l.w[i], &x) && x < MAXRESP ? (int) x : -1; }
       while (offn < n) { ssize_t r = send (hc[a].cfd, rq + offn, n - offn, MSG_DONTWAIT | MSG_NOSIGNAL); if (r <= 0) break; offn += (size_t) r; }
       out ("req c=%d sent=%d", (int) a, offn == n);
     }
@@ -525,6 +675,13 @@ int main (void)
     else if (! strcmp (op, "tick") && l.n >= 2 && lp_u64 (l.w[1], &a)) { vclock_ms += a; out ("ok"); }
     else if (! strcmp (op, "resume") && l.n >= 2 && lp_u64 (l.w[1], &a) && a < MAXC && hc[a].mc && hc[a].mc->suspended && NULL == hc[a].mc->urh)
     { out ("resume c=%d", (int) a); LIB (MHD_resume_connection (hc[a].mc)); }
+    else if (! strcmp (op, "ext-queue") && l.n >= 3 && lp_u64 (l.w[1], &a) && lp_u64 (l.w[2], &b) && a < MAXC && b < MAXRESP
+             && hc[a].mc && hc[a].mc->suspended && NULL == hc[a].mc->urh)
+    { /* the application queues a response from outside the handler while the connection is suspended */
+      enum MHD_Result q = MHD_NO;
+      if (NULL != hr[b].obj) LIB (q = MHD_queue_response (hc[a].mc, 200, hr[b].obj));
+      out ("queued c=%d rid=%d -> %d", (int) a, (int) b, (int) q);
+    }
     else if (! strcmp (op, "up-close") && l.n >= 2 && lp_u64 (l.w[1], &a) && a < MAXC && hc[a].upgraded)
     { enum MHD_Result q; LIB (q = MHD_upgrade_action (hc[a].urh, MHD_UPGRADE_ACTION_CLOSE)); out ("up-close c=%d -> %d", (int) a, (int) q); hc[a].upgraded = 0; hc[a].urh = NULL; }
     else if (! strcmp (op, "alloc-fail") && l.n >= 2 && lp_u64 (l.w[1], &a) && a > 0) { fail_k = (long) a; out ("ok"); }
